@@ -29,6 +29,7 @@ from vf import lib, sym
 from vf.env import shadow_builtins, NpProxy
 from vf.sym import S, SI, SB
 from vf.timeidx import sym_int, near_time, as_int, all_of, any_of
+from vf.poly import ob_eq_poly
 
 ASSUMPTIONS = [
     "exact real arithmetic for times (float times are start + dt*(k+e), |e|<1/2: ties and floating-point rounding of "
@@ -67,7 +68,12 @@ def _same(got, exp):
         return got is None and exp is None
     if isinstance(got, np.ndarray) and got.dtype != object and isinstance(exp, np.ndarray) and exp.dtype != object:
         return bool(np.max(np.abs(got - exp)) <= 1e-9 * (1 + np.max(np.abs(exp))))
-    return SB(z3.Not(sym.neq_any(np.asarray(got, dtype=object), np.asarray(exp, dtype=object))))
+    f = z3.simplify(z3.Not(sym.neq_any(np.asarray(got, dtype=object), np.asarray(exp, dtype=object))))
+    if z3.is_false(f) and all(S.of(v).is_concrete() for v in list(np.asarray(got, dtype=object).flat) + list(np.asarray(exp, dtype=object).flat)):
+        from vf.core import _as_complex             # concrete validation run: doubles are kept as they are
+        g, e = _as_complex(got), _as_complex(exp)
+        return bool(np.max(np.abs(g - e)) <= 1e-9 * (1 + np.max(np.abs(e))))
+    return SB(f)
 
 
 # ------------------------------------------------------------------------------------------
@@ -157,7 +163,7 @@ class H1(Case):
                 obs.append(Ob.holds("%s: every registered control acts exactly once (either order)" % side_name,
                                     any_of([_same(got, exp), _same(got, rev)]), key="once"))
             else:
-                obs.append(Ob.eq("%s: product in insertion order (later added acts later)" % side_name, got, exp, key="order"))
+                obs.append(ob_eq_poly(inp, "%s: product in insertion order (later added acts later)" % side_name, got, exp, key="order"))
         return obs
 
 
@@ -311,7 +317,7 @@ class H3a(Case):
                     obs.append(Ob.holds("%s site %d: None iff nothing registered" % (name, k), got[k] is None and exp[k] is None,
                                         key="none_iff_empty"))
                 else:
-                    obs.append(Ob.eq("%s site %d: product in insertion order (later added acts later)" % (name, k), got[k], exp[k], key="order"))
+                    obs.append(ob_eq_poly(inp, "%s site %d: product in insertion order (later added acts later)" % (name, k), got[k], exp[k], key="order"))
         return obs
 
 
@@ -373,24 +379,33 @@ class H3b(Case):
             obs.append(Ob.holds("site %d: number of recorded states" % k, len(states) == N + 1, key="count"))
             for n in range(min(N + 1, len(states))):
                 exp = (vs[k, n] * tr(vs[1 - k, n])).reshape(2, 2)
-                obs.append(Ob.eq("site %d state %d" % (k, n), states[n], exp, key="state"))
+                obs.append(ob_eq_poly(inp, "site %d state %d" % (k, n), states[n], exp, key="state"))
         if self.pair:
             states = list(res["dynamics"][(0, 1)]._states)
             for n in range(min(N + 1, len(states))):
                 a, b = vs[0, n].reshape(2, 2), vs[1, n].reshape(2, 2)
                 exp = np.einsum("ij,kl->ikjl", a, b).reshape(4, 4)
-                obs.append(Ob.eq("two-site state %d" % n, states[n], exp, key="state"))
+                obs.append(ob_eq_poly(inp, "two-site state %d" % n, states[n], exp, key="state"))
         return obs
 
 
 def cases(tier):
     cs = []
-    cs += [H1("i", 3), H1("ii", 2), H1("iii", 2), H1("iIi", 2, side="pre"), H1("a", 3, dt="sym"), H1("aa", 2), H1("aaa", 2, dt="sym"),
+    # ---- H1 Control
+    cs += [H1("i", 3), H1("ii", 2), H1("iii", 2, side="pre"), H1("iIi", 2, side="post"), H1("a", 3, dt="sym"), H1("aa", 2), H1("aaa", 2, dt="sym"),
            H1("ab", 2), H1("aab", 2), H1("abc", 2, side="post"), H1("ia", 2), H1("aia", 2, side="pre")]
     cs += [H1("ia", 2, "mixed_same_step", side="pre"), H1("ai", 2, "mixed_same_step", side="pre"),
            H1("ia", 2, "mixed_same_step", side="post"), H1("ai", 2, "mixed_same_step", side="post"),
            H1("ab", 2, "float_antichrono")]
+    # ---- H2 compute_dynamics
     cs += [H2(0, 2, "i"), H2(1, 2, "i"), H2(1, 3, "f", start=0.3), H2(1, 2, "ii"), H2(1, 2, "if", bond=1), H2(1, 2, "ii", stack=True, rank=3)]
-    cs += [H3a(1, 2, "claim"), H3a(2, 2, "claim"), H3a(3, 1, "claim"), H3a(2, 2, "stack_order"), H3a(3, 1, "stack_order")]
-    cs += [H3b(1, 2, "claim"), H3b(2, 2, "claim", bonds=(1, 1)), H3b(2, 2, "stack_order", bonds=(1, 1))]
+    # ---- H3 chains
+    cs += [H3a(1, 2, "claim"), H3a(2, 2, "claim"), H3a(2, 2, "stack_order"), H3a(3, 1, "stack_order")]
+    cs += [H3b(1, 2, "claim"), H3b(2, 1, "claim", bonds=(1, 1), pair=False), H3b(2, 1, "stack_order", bonds=(1, 1), pair=False)]
+    if tier == "thorough":
+        cs += [H1("iii", 3), H1("iii", 2), H1("abc", 3, dt="sym"), H1("aab", 2, dt="sym"), H1("abb", 2), H1("iai", 2), H1("ab", 3, "float_antichrono", dt="sym"),
+               H1("ia", 3, "mixed_same_step", dt="sym", side="pre"), H1("ai", 3, "mixed_same_step", dt="sym", side="post")]
+        cs += [H2(0, 3, "ii"), H2(1, 3, "ii"), H2(2, 2, "i", bond=1), H2(1, 3, "ff", start=0.3, bond=1), H2(1, 3, "iii", stack=True, bond=1), H2(1, 2, "iii", bond=1)]
+        cs += [H3a(3, 1, "claim"), H3a(3, 2, "stack_order"), H3b(2, 2, "claim", bonds=(1, 1)), H3b(1, 3, "claim", bonds=(2, 2)),
+               H3b(3, 1, "stack_order", bonds=(1, 1), pair=False), H3b(2, 2, "stack_order", bonds=(2, 1))]
     return cs
